@@ -8,6 +8,7 @@ import (
 	"errors"
 	"fmt"
 	"math"
+	"math/big"
 	"reflect"
 	"strings"
 	"time"
@@ -95,11 +96,63 @@ type JSONFact struct {
 
 // Ref is the interpreter. Opt controls the few points the documentation leaves open.
 type Ref struct {
-	AmpAsBuilt bool // not a semantic switch: evaluation is by tree; kept for symmetry with Style
-	NowFn      func() time.Time
+	// Strict makes overflow, division by zero and NaN/Inf results domain errors (C05 quantifies
+	// over states free of them); otherwise they follow Go's wrapping / IEEE behaviour.
+	Strict bool
 }
 
 var ref = &Ref{}
+var refStrict = &Ref{Strict: true}
+
+// strictCheck reports a domain error when the operation left the overflow/NaN-free domain.
+func strictCheck(op string, a, b, res Val) error {
+	switch res.K {
+	case TFloat:
+		if math.IsNaN(res.F) || math.IsInf(res.F, 0) {
+			return domErr("NaN or Inf result")
+		}
+		if res.F != 0 && math.Abs(res.F) < 1e-300 {
+			return domErr("denormal range")
+		}
+	case TInt, TUint:
+		if a.K == TFloat || b.K == TFloat {
+			return nil
+		}
+		var x, y big.Int
+		if a.K == TUint {
+			x.SetUint64(a.U)
+		} else {
+			x.SetInt64(a.I)
+		}
+		if b.K == TUint {
+			y.SetUint64(b.U)
+		} else {
+			y.SetInt64(b.I)
+		}
+		if (a.K == TUint && a.U > math.MaxInt64 || b.K == TUint && b.U > math.MaxInt64) && !(a.K == TUint && b.K == TUint) {
+			return domErr("unsigned operand beyond int64 mixed with signed")
+		}
+		var z big.Int
+		switch op {
+		case "+":
+			z.Add(&x, &y)
+		case "-":
+			z.Sub(&x, &y)
+		case "*":
+			z.Mul(&x, &y)
+		default:
+			return nil
+		}
+		if res.K == TUint {
+			if !z.IsUint64() || z.Uint64() != res.U {
+				return domErr("unsigned overflow")
+			}
+		} else if !z.IsInt64() || z.Int64() != res.I {
+			return domErr("integer overflow")
+		}
+	}
+	return nil
+}
 
 func isNum(k Ty) bool { return k == TInt || k == TUint || k == TFloat }
 
@@ -337,6 +390,14 @@ func (r *Ref) readPath(p *Path, st State) (Val, error) {
 	if !l.v.IsValid() {
 		return Val{K: TAny}, nil
 	}
+	if l.json {
+		// a JSON tree holds its values in interface{} slots; the value itself is not indirect
+		v := l.v
+		for v.Kind() == reflect.Interface && !v.IsNil() {
+			v = v.Elem()
+		}
+		return scalarOf(v), nil
+	}
 	return scalarOf(l.v), nil
 }
 
@@ -396,7 +457,21 @@ func (r *Ref) Eval(e *Expr, st State) (Val, error) {
 	if rerr != nil {
 		return Val{}, rerr
 	}
-	return BinOp(e.Op, l, rv)
+	res, err := BinOp(e.Op, l, rv)
+	if r.Strict {
+		if err != nil && !isDomainErr(err) && strings.Contains(err.Error(), "division by zero") {
+			return Val{}, domErr("division by zero")
+		}
+		if err == nil {
+			if e.Op == "/" && toF(rv) == 0 {
+				return Val{}, domErr("division by zero")
+			}
+			if serr := strictCheck(e.Op, l, rv, res); serr != nil {
+				return Val{}, serr
+			}
+		}
+	}
+	return res, err
 }
 
 // BinOp applies a non-logical binary operator per the documentation.
